@@ -10,6 +10,11 @@ tree) is driven through histories by scripted observers; its trace is
      after de-registration) - once as libcoap defines the RST rule, once as the property states it;
   O: checked by implementation-only oracles (body = latest application state, session alive and
      referenced while it has observers, the I/O loop looks at the observers on every turn).
+(3) real libcoap clients (coap_send with Observe, coap_cancel_observe, applications that forget an
+observation and reset what arrives) observe the same server through a FIFO network with loss;
+oracles on the clients' response-handler log: Observe order = order of the application states,
+after a loss-free closing phase every registered observer has heard the latest state and nobody who
+cancelled / reset is still registered, no notification to an observer after the server deleted it.
 """
 import re
 import vlib
@@ -62,6 +67,40 @@ def stale_rst_signature(t, idx):
                 f = o[1:].split(":")
                 sent[int(f[0])] = (f[1], f[2], f[3], f[-1] == "C")
                 latest[(f[1], f[2], f[3])] = int(f[0])
+    return None
+
+
+def fresh_oracle(t):
+    """implementation-only form of 'Observe value strictly greater (24-bit serial numbers) than in
+    any earlier notification': every notification to (resource, observer, token) against the
+    previous value-carrying message to it (a registration response may be repeated once: the
+    registration can fall between a change and the I/O step).  -> None or a description"""
+    last = {}                       # (r, c, tok) -> (value, was_registration_response)
+    for g in t.groups:
+        for o in g[1]:
+            if o[0] == "Q":
+                r, c, tok, v = o[1:].split(":")
+                if v != "-":
+                    last[(r, c, tok)] = (int(v), True)
+                else:
+                    last.pop((r, c, tok), None)
+            elif o[0] == "N":
+                f = o[1:].split(":")
+                key, v = (f[1], f[2], f[3]), int(f[4])
+                if key in last:
+                    pv, weak = last[key]
+                    d = (v - pv) % (1 << 24)
+                    if not ((0 if weak else 1) <= d < (1 << 23)):
+                        return ("notification %s: Observe %d after %d for the same observer is not fresher"
+                                % (o, v, pv))
+                last[key] = (v, False)
+            elif o[0] in "EG":
+                f = o[1:].split(":")
+                last.pop(tuple(f[1:4]) if o[0] == "E" else tuple(f[0:3]), None)
+        if g[0][0] == "D":
+            r = g[0].split(":")[1]
+            for k in [k for k in last if k[0] == r]:
+                del last[k]
     return None
 
 
@@ -131,17 +170,31 @@ def judge(case, trace, mo, acc_l, acc_s, consts_expected=None):
         _, idx, code = acc_l.split()
         idx, code = int(idx), int(code)
         g = t.groups[idx] if idx < len(t.groups) else ["?", [], "?"]
-        v.kind = "acceptor"
         v.what = ("acceptor rejects the implementation's history at op %d (%s, harness op %s): %s"
                   % (idx, g[0], g[2], REASONS.get(code, "reason %d" % code)))
         v.detail = "outputs of that op: %s" % " ".join(g[1])
+        if t.ca_leaks:
+            v.detail += ("\nNSTART accounting: " + "; ".join(t.ca_leaks[:3]) +
+                         " (the acceptor was given the number outstanding on the wire)")
+        if code in (3, 8):
+            # the acceptor ties the Observe value to libcoap's counter (one step per change); the
+            # property only asks for freshness: decide that on the implementation's values alone
+            fo = fresh_oracle(t)
+            if fo is None:
+                v.kind = "tie"
+                v.what = ("Observe values differ from the model's counter scheme but are fresh (%s)"
+                          % REASONS.get(code))
+                return v
+            v.detail += "\nfreshness oracle: " + fo
+        v.kind = "acceptor"
         return v
     if not acc_l.startswith("ACCEPT"):
         v.kind, v.what = "acceptor", "acceptor failed: " + acc_l[:200]
         return v
     # ---- F: exact correspondence with the model
     ic = G.impl_canonical(t)
-    if G.canon_model(mo) != G.canon_model(ic):
+    v.internal_diff = G.canon_model(mo) != G.canon_model(ic)
+    if G.strip_internal(G.canon_model(mo)) != G.strip_internal(G.canon_model(ic)):
         v.kind = "tie"
         v.what = "implementation differs from the proved model"
         v.detail = "model: %s\nimpl : %s" % (mo, ic)
@@ -223,14 +276,39 @@ def main(run):
     drv = vlib.build_driver("h_observe", ["h_observe.c"], wraps=G.WRAPS)
     r = tie.rng_for(run, "c11")
     n = 5000 if run.tier == "quick" else 120000
-    lines = list(vlib.read_corpus("C11"))
+    lines = [ln for ln in vlib.read_corpus("C11") if ln.startswith("c11 ")]
     kinds = ["corpus"] * len(lines)
     for i in range(n):
         prof = None
         hdr, ops = G.gen_case(r, profile=prof)
         lines.append(G.line_of(hdr, ops))
         kinds.append("generated")
+    if run.tier == "thorough":
+        # exhaustive sweep of short histories over a small alphabet (every interleaving of
+        # register / re-register / cancel / change / I/O / ACK / RST fresh+stale / give-up /
+        # error mode / session loss / deletion after one registration)
+        import itertools
+        alpha = ["reg:0:0:-:a1:0", "reg:0:0:-:a2:1", "reg:1:0:61:b1:0", "can:0:0:-:a1:0", "chg:0:1",
+                 "io", "ack:0:0", "rst:0:0", "rst:0:1", "fail", "err:0:132", "err:0:0", "lost:0", "del:0"]
+        for mode, nstart, depth in ((0, 1, 4), (1, 1, 4), (1, 2, 3)):
+            for seq in itertools.product(alpha, repeat=depth):
+                lines.append("c11 1 %d 0 0 %d reg:0:0:-:a1:0 chg:0:1 %s chg:0:1 io" %
+                             (mode, nstart, " ".join(seq)))
+                kinds.append("sweep")
     verdicts, ncrash = evaluate(lines, drv, model)
+    if run.tier == "thorough":
+        # the same corpus + a sample of the generated histories under ASan/UBSan: the deletion
+        # paths (observer freed while its list is walked, session released) must be memory safe
+        drv_asan = vlib.build_driver("h_observe", ["h_observe.c"], variant="asan", wraps=G.WRAPS)
+        sample = [ln for ln, k in zip(lines, kinds) if k != "sweep"][:6000]
+        outs_a, crashes_a = vlib.run_lines_robust(drv_asan, sample, timeout=1800,
+                                                  env={"ASAN_OPTIONS": "detect_leaks=1:abort_on_error=0"})
+        run.cov["asan_cases"] = len(sample)
+        run.cov["asan_crashes"] = len(crashes_a)
+        for idx, rc, err in crashes_a[:2]:
+            run.violation("the driver built with ASan/UBSan stops on this history (rc=%d)" % rc,
+                          "case: %s\n\n%s\nreplay: echo '<case>' | .build/obj/asan/h_observe\n"
+                          % (sample[idx], err), tag="asan%d" % idx)
     run.cov["driver_crashes"] = ncrash
     nbad = {}
     consts = None
@@ -247,6 +325,9 @@ def main(run):
             for g in t.groups:
                 run.hist("model_op", g[0][0])
         run.hist("verdict", v.kind or "ok")
+        if getattr(v, "internal_diff", False) and v.kind is None:
+            # flags the property cannot observe differ from the model: recorded, not a violation
+            run.hist("internal_state_differs", 1)
         if i % 200 == 5 and v.kind is None:
             run.sample({"case": ln[:400], "impl_trace": v.trace[:600]})
         if v.kind is None:
@@ -274,6 +355,45 @@ def main(run):
                  getattr(sv, "model_out", "")))
         concrete = v.kind in ("acceptor", "oracle", "strict", "crash")
         run.violation(v.what, text, tag="%s%d" % (v.kind, nbad[v.kind]), no_input=not concrete)
+    # ---- real libcoap clients behind a lossy FIFO network (implementation-only oracles)
+    rc = tie.rng_for(run, "c11r")
+    nc = 700 if run.tier == "quick" else 20000
+    clines = [ln for ln in vlib.read_corpus("C11") if ln.startswith("c11r ")]
+    clines += [G.gen_client_case(rc) for _ in range(nc)]
+    couts, ccr = vlib.run_lines_robust(drv, clines, timeout=1800)
+    run.cov["client_histories"] = len(clines)
+    run.cov["client_driver_crashes"] = len(ccr)
+    tot = {"handler_calls": 0, "notifications": 0, "registered_at_end": 0}
+    for i, (ln, out) in enumerate(zip(clines, couts)):
+        ok, what, st = G.judge_client(ln, out)
+        run.count(ln, ok and st.get("handler_calls", 0) >= 4)
+        run.hist("source", "real_clients")
+        for k in tot:
+            tot[k] += st.get(k, 0)
+        if i % 300 == 7 and ok:
+            run.sample({"case": ln[:300], "impl_trace": out[:500]})
+        if ok:
+            continue
+        nbad["client"] = nbad.get("client", 0) + 1
+        if nbad["client"] > 2:
+            continue
+        toks = ln.split()
+
+        def still(prefix, cand):
+            l2 = " ".join(prefix + [c[0] for c in cand])
+            o2, _ = vlib.run_lines_robust(drv, [l2], timeout=300)
+            return not G.judge_client(l2, o2[0])[0]
+        try:
+            small = " ".join(toks[:7] + [c[0] for c in
+                                         tie.shrink_ops(toks[:7], [[o] for o in toks[7:]], still, max_steps=200)])
+        except Exception:
+            small = ln
+        o2, _ = vlib.run_lines_robust(drv, [small], timeout=300)
+        ok2, what2, _ = G.judge_client(small, o2[0])
+        run.violation("real libcoap client: " + (what2 or what),
+                      "case: %s\nwhat: %s\nimplementation trace: %s\nreplay: echo '<case>' | .build/obj/base/h_observe\n"
+                      % (small, what2 or what, o2[0]), tag="client%d" % nbad["client"])
+    run.cov["client_totals"] = tot
     run.cov["failures_by_class"] = nbad
     if consts is not None:
         run.cov["constants_from_build"] = consts
